@@ -15,8 +15,28 @@ META = {
                  "state-machine invariant of the lazy caches for query-order independence, orbit argument for the rotational "
                  "sort) + translator-regenerated guards / record layout / slot indices / walk steps / border predicate + "
                  "kernel-checked correspondence batches on generated oriented manifold surfaces and random query scripts",
-    "level_text": "TO BE FILLED",
-    "level_note": "TO BE FILLED",
+    "level_text": "Machine-checked Coq theorems (closed under the global context, unbounded: all oriented manifold polygon "
+                  "surfaces, all query scripts, sorting on/off) about an executable model of PolyLine/SurfaceMesh._Connectivity and "
+                  "the SurfaceMesh border API whose lazy guards, assigned/cleared attributes, half-edge record layout, slot indices, "
+                  "index formulas, walk steps and border predicate are regenerated from surface.py/linear.py on every run. FULL: "
+                  "query-order independence for every script incl. clear()/clear_boundary_data() (every reachable cache state answers "
+                  "every query with its pure answer; a fresh mesh answers what a used one answers); the table computation never "
+                  "raises; next/previous/opposite corner, corner<->half-edge, face on either side of an edge (+local indices), "
+                  "opposite face, corner of a vertex in a face, first corner of a face, edge and face identifiers equal direct "
+                  "inspection of the face list; with sorting on vertex_to_corners is a rotationally ordered closed ring (interior "
+                  "vertex) / open fan from border to border (border vertex); with sorting off vertex_to_corners / vertex_to_vertices "
+                  "are the corner / neighbour sets; boundary/interior edges and vertices partition the ids by 'a side has no face'. "
+                  "PARTIAL: sorted vertex_to_vertices is proved to be a rearrangement of the neighbours, its order (and the derived "
+                  "vertex_to_faces / vertex_to_edges / face_to_faces / face_to_corners / face_to_edges / common_edge lists) is "
+                  "covered by query-order independence and by the correspondence batches + oracle, not by a spec theorem. The model "
+                  "is tied to the code by kernel-evaluated correspondence batches: generated manifold surfaces x random scripts of "
+                  "40-60 public queries on a fresh mesh, every answer compared (rings up to rotation, unordered answers as sets).",
+    "level_note": "Trusted: Coq kernel + vm_compute; the surface.py/linear.py translator (vf/translate/c01.py); the correspondence "
+                  "harness (mesh and script generators, driver canonicalisation: tuples/lists identified, numpy ints/bools cast); "
+                  "CPython dict/set/list semantics (set iteration order is not modelled: such answers are compared as sets / up to "
+                  "rotation); the partially assigned cache state after an exception inside a compute method is not modelled (cannot "
+                  "arise on manifold meshes: theorem C01_compute_total); mesh_data.py's edge / corner completion is modelled "
+                  "(gen_edges, gen_corners) and compared with the implementation's per case, its specification is C02's matter.",
 }
 
 HEADER = """From Coq Require Import ZArith List Bool.
@@ -88,68 +108,75 @@ def run_impl_cases(cases, timeout=900):
     return out
 
 
+def fails_many(cands, timeout=300):
+    """One driver process for a batch of candidate cases -> list of (oracle message or None, result)."""
+    if not cands:
+        return []
+    res = core.run_impl("vf.impl.c01_driver", {"cases": cands}, timeout=timeout)["cases"]
+    out = []
+    for c, r in zip(cands, res):
+        try:
+            out.append((O.check_case(c, r), r))
+        except Exception as ex:
+            out.append(((-1, "oracle crashed: %r" % ex), r))
+    return out
+
+
 def fails_case(case):
-    res = core.run_impl("vf.impl.c01_driver", {"cases": [case]}, timeout=120)["cases"][0]
-    return O.check_case(case, res), res
+    return fails_many([case])[0]
 
 
 # ---------------------------------------------------------------------- shrinking
-def shrink(case):
-    """Shrink a failing case: script (delta debugging, keeping the failing query last), then faces."""
-    def bad(c):
-        try:
-            if G.validate(c["nv"], c["faces"]) is not None:
+def script_valid_for(script, faces):
+    nf = len(faces)
+    nc = sum(len(F) for F in faces)
+    for q in script:
+        sig = G.QUERIES[q[0]]
+        for ch, a in zip(sig, q[1:]):
+            if ch == "F" and a >= nf:
                 return False
-            m, _ = fails_case(c)
-            return m is not None
-        except Exception:
-            return False
-    cur = dict(case)
+            if ch == "C" and a >= nc:
+                return False
+            if ch == "E":
+                return False
+    return True
+
+
+def shrink(case, budget_s=60.0):
+    """Shrink a failing case with batched re-runs: script (keep the failing query last), then faces."""
+    import time
+    t0 = time.time()
+    cur = {k: v for k, v in case.items() if k != "info"}
     m, _ = fails_case(cur)
     if m is None:
         return cur
-    k = m[0]
-    if k >= 0:
-        cur["script"] = cur["script"][:k + 1]
-    # drop queries
-    i = 0
-    while i < len(cur["script"]) - 1:
-        cand = dict(cur, script=cur["script"][:i] + cur["script"][i + 1:])
-        if bad(cand):
-            cur = cand
-        else:
-            i += 1
-    # drop faces (queries naming a face beyond the end are dropped by validity of the script: keep only if still failing)
-    changed = True
-    budget = 60
-    while changed and budget > 0:
-        changed = False
-        for f in range(len(cur["faces"])):
-            budget -= 1
-            if budget <= 0:
-                break
-            faces = cur["faces"][:f] + cur["faces"][f + 1:]
-            if not faces:
-                continue
-            nf = len(faces)
-            nc = sum(len(F) for F in faces)
-            ok = True
-            for q in cur["script"]:
-                sig = G.QUERIES[q[0]]
-                for ch, a in zip(sig, q[1:]):
-                    if ch == "F" and a >= nf:
-                        ok = False
-                    if ch == "C" and a >= nc:
-                        ok = False
-                    if ch == "E":
-                        ok = False
-            if not ok:
-                continue
-            cand = dict(cur, faces=faces)
-            if bad(cand):
-                cur = cand
-                changed = True
-                break
+    if m[0] >= 0:
+        cur["script"] = cur["script"][:m[0] + 1]
+    # 1. the failing query alone, else drop one query at a time (batched)
+    while len(cur["script"]) > 1 and time.time() - t0 < budget_s:
+        sc = cur["script"]
+        cands = [dict(cur, script=[sc[-1]])] + [dict(cur, script=sc[:i] + sc[i + 1:]) for i in range(len(sc) - 1)]
+        rs = fails_many(cands)
+        hit = [c for c, (mm, _) in zip(cands, rs) if mm is not None]
+        if not hit:
+            break
+        cur = min(hit, key=lambda c: len(c["script"]))
+    # 2. drop faces (batched, one face per round; half of the faces first)
+    while len(cur["faces"]) > 1 and time.time() - t0 < budget_s:
+        fs = cur["faces"]
+        cands = []
+        h = len(fs) // 2
+        for sub in ([fs[:h], fs[h:]] if h >= 1 else []) + [fs[:i] + fs[i + 1:] for i in range(len(fs))]:
+            if sub and script_valid_for(cur["script"], sub) and G.validate(cur["nv"], sub) is None:
+                cands.append(dict(cur, faces=sub))
+        cands = cands[:40]
+        if not cands:
+            break
+        rs = fails_many(cands)
+        hit = [c for c, (mm, _) in zip(cands, rs) if mm is not None]
+        if not hit:
+            break
+        cur = min(hit, key=lambda c: len(c["faces"]))
     return cur
 
 
@@ -187,6 +214,7 @@ def run(ctx):
     ctx.regen(sys.modules[__name__])
     b = ctx.build_props(extra_targets=["theories/C01/Run.vo"])
     ctx.hygiene(["Lib", "C01"])
+    ctx.log("model/proofs built: model_ok=%s props_ok=%s" % (b["model_ok"], b["props_ok"]))
 
     corpus = []
     cdir = os.path.join(core.ROOT, "corpus", "C01")
@@ -195,7 +223,9 @@ def run(ctx):
             if f.endswith(".json"):
                 corpus.append(json.load(open(os.path.join(cdir, f))))
     cases = corpus + [gen_case(ctx.rng, max_faces) for _ in range(n_cases)]
+    ctx.log("generated %d cases (+%d corpus)" % (n_cases, len(corpus)))
     results = run_impl_cases(cases)
+    ctx.log("implementation driven on all cases")
 
     for c, r in zip(cases, results):
         st = G.mesh_stats(c)
@@ -231,6 +261,7 @@ def run(ctx):
     ctx.obligation("oracle: every answer of the implementation equals the brute-force recomputation from the face list",
                    "oracle-on-implementation", True, "%d failing cases" % len(fails))
 
+    ctx.log("oracle done: %d failing" % len(fails))
     # 2. kernel-checked correspondence
     bad = []
     if b["model_ok"]:
@@ -243,18 +274,21 @@ def run(ctx):
     else:
         ctx.obligation("correspondence batches", "correspondence", False, "model does not compile")
 
+    ctx.log("correspondence done: %d disagreeing" % len(bad))
     # 3. verdicts
     reported = set()
+    import time as _time
+    t_shrink = _time.time()
     for idx, msg in fails[:50]:
         case = cases[idx]
         key = classify(case, msg)
-        if key in reported:
+        if key in reported or len(reported) >= 3:
             continue
         reported.add(key)
         if ctx.known(key):
             ctx.report_known(key, ctx.known(key)["what"])
             continue
-        small = shrink({k: v for k, v in case.items() if k != "info"})
+        small = shrink(case, budget_s=max(5.0, 45.0 - (_time.time() - t_shrink)))
         m2, res2 = fails_case(small)
         ctx.violation("surface connectivity: " + (m2[1] if m2 else msg[1]),
                       {"case": small, "observed": res2.get("obs"), "class": key}, key=key)
